@@ -549,8 +549,13 @@ class Runtime:
                 sim.log("store-effect", "write", name, canon(value), t)
                 fed = self.world["stores"][name].get("feeds")
                 if fed:
-                    owner = [m["id"] for m in self.world["nodes"] if m.get("store") == name][0]
-                    self._side_write(fed, ref.fed_value(owner, value))
+                    owner = [m["id"] for m in self.world["nodes"] if m.get("store") == name and m["kind"] != "src"][0]
+                    fv = ref.fed_value(owner, value)
+                    if self.world["stores"][name].get("alias"):
+                        self.sim.log("side-write", fed, canon(fv))
+                        self.disk.put_same_instant(fed, fv, t)
+                    else:
+                        self._side_write(fed, fv)
                 self.cut_point("write-after", name)
                 if f is not None and f.get("when") == "after":
                     e = self._make_exc(f, f"write {name} (after effect)")
